@@ -88,3 +88,13 @@ Definition relink_prog (q i : N) : list rstep := [RLinkTmp i; RRename q].
 Definition relink_prog_unlink_first (q i : N) : list rstep := [RUnlink q; RLink q i].
 (* the state after the first k calls: a kill just before call k+1 *)
 Definition rprefix (k : nat) (prog : list rstep) (s : rstate) : rstate := fold_left rstep_apply (firstn k prog) s.
+
+(* ---------- separate_foreign_links (src/sync/mod.rs), following `fix: -H separates destination names whose source files are no
+   longer hard links of each other` ----------
+   A destination name that shares its inode with names of another source group gets a copy of its own: the same content on a
+   fresh inode (made under the working name, renamed into place). *)
+Definition separate (s : dstate) (q : N) : dstate :=
+  match content_of s q with
+  | Some c => replace s q c
+  | None => s
+  end.
